@@ -72,6 +72,7 @@ def run(module, cfg, workdir, workers=8, timeout=600, env=None, extra=(), heap=N
     if key and os.path.exists(os.path.join(CACHE, key, "done")):
         res = _parse(open(os.path.join(CACHE, key, "tlc.out"), errors="replace").read(), TlcResult(), keep_stdout)
         res.rc, res.cached = 0, True
+        res.timed_out = not res.complete and res.violated is None and "-simulate" not in extra
         res.wall = float(open(os.path.join(CACHE, key, "done")).read() or 0)
         return res
     meta = os.path.join(workdir, "meta")
@@ -96,7 +97,8 @@ def run(module, cfg, workdir, workers=8, timeout=600, env=None, extra=(), heap=N
     text = open(outpath, errors="replace").read()
     _parse(text, res, keep_stdout)
     shutil.rmtree(meta, ignore_errors=True)
-    if key and not res.timed_out and not res.error and (res.complete or "-simulate" in extra or res.violated):
+    # a run stopped by a long (thorough-tier) time limit is kept too: it explored what it reports, and says so (complete = False)
+    if key and not res.error and (res.complete or "-simulate" in extra or res.violated or (res.timed_out and timeout >= 1000 and res.distinct > 0)):
         d = os.path.join(CACHE, key)
         os.makedirs(d, exist_ok=True)
         shutil.copyfile(outpath, os.path.join(d, "tlc.out"))
